@@ -343,26 +343,34 @@ def arr_index(a, idxs):
             if isinstance(i, int) and i < 0:
                 i = a.shape[d] + i
             plan.append(("fix", i))
-        elif isinstance(i, Arr) and i.ndim == 1 and i.dtype == "int":
-            new_shape.append(i.shape[0])
-            plan.append(("gather", i))
-        elif isinstance(i, Arr) and i.ndim == 1 and i.dtype == "bool":
-            w = where_of(i)
-            new_shape.append(w.shape[0])
-            plan.append(("gather", w))
+        elif isinstance(i, Arr) and i.ndim == 1 and i.dtype in ("int", "bool"):
+            g = i if i.dtype == "int" else where_of(i)
+            if any(kind == "gather" for kind, _ in plan):
+                # numpy "advanced" indexing: several index arrays are broadcast TOGETHER, a[I, J][k] == a[I[k], J[k]] (one output axis for all
+                # of them, not the outer product a[I][:, J])
+                if plan[-1][0] not in ("gather", "gather-same"):
+                    raise Unsupported("index arrays separated by a slice")
+                plan.append(("gather-same", g))
+            else:
+                new_shape.append(g.shape[0])
+                plan.append(("gather", g))
         else:
             raise Unsupported(f"array index {i!r}")
 
     def at(*k, plan=plan, a=a):
         k = list(k)
         full = []
+        last = None
         for kind, x in plan:
             if kind == "fix":
                 full.append(x)
             elif kind == "shift":
                 full.append(x + k.pop(0))
+            elif kind == "gather":
+                last = k.pop(0)
+                full.append(x.at(last))
             else:
-                full.append(x.at(k.pop(0)))
+                full.append(x.at(last))
         return a.at(*full)
     r = Arr(new_shape, at, a.dtype)
     r.facts = list(getattr(a, "facts", []))
@@ -1792,10 +1800,14 @@ class Executor:
         r_ = self.array_loop_summary(s, path, it)
         if r_ is not None:
             return r_
-        if s.orelse or len(s.body) != 1:
+        if s.orelse or not s.body:
             return None
-        st = s.body[0]
-        assigned = assigned_names(s.body)
+        # the element expression may be spelled with loop-local temporaries:  tmp = E1(...); X[i] = E(tmp, X[i], i)
+        pre, st = s.body[:-1], s.body[-1]
+        if not all(isinstance(p_, ast.Assign) and len(p_.targets) == 1 and isinstance(p_.targets[0], ast.Name) for p_ in pre):
+            return None
+        temps = {p_.targets[0].id for p_ in pre}
+        assigned = assigned_names(s.body) - temps
         # ---- in-place map
         if (isinstance(st, ast.Assign) and len(st.targets) == 1 and isinstance(st.targets[0], ast.Subscript)
                 and isinstance(st.targets[0].value, ast.Name) and isinstance(st.targets[0].slice, ast.Name)
@@ -1813,21 +1825,28 @@ class Executor:
             for n_ in ast.walk(st.value):
                 if isinstance(n_, ast.Name) and n_.id == X:
                     par = getattr(n_, "_parent_sub", None)
-            uses = [n_ for n_ in ast.walk(st.value) if isinstance(n_, ast.Name) and n_.id == X]
-            subs = [n_ for n_ in ast.walk(st.value) if isinstance(n_, ast.Subscript) and isinstance(n_.value, ast.Name)
+            if X in temps or s.target.id in temps:
+                return None
+            exprs = [p_.value for p_ in pre] + [st.value]
+            uses = [n_ for e_ in exprs for n_ in ast.walk(e_) if isinstance(n_, ast.Name) and n_.id == X]
+            subs = [n_ for e_ in exprs for n_ in ast.walk(e_) if isinstance(n_, ast.Subscript) and isinstance(n_.value, ast.Name)
                     and n_.value.id == X and isinstance(n_.slice, ast.Name) and n_.slice.id == s.target.id]
             if len(uses) != len(subs):
                 return None
             base_env = dict(path.env)
             ex = self
 
-            def elem(k, base_env=base_env, st=st, tgt=s.target.id, path=path):
+            def elem(k, base_env=base_env, st=st, pre=pre, tgt=s.target.id, path=path):
                 p2 = path.child()
                 p2.env = dict(base_env)
                 p2.env[tgt] = k
+                for p_ in pre:
+                    p2.env[p_.targets[0].id] = ex.ev(p_.value, p2)
                 return ex.ev(st.value, p2)
             path.env[X] = SymSeq(seq.length, elem, seq.kind)
             path.env[s.target.id] = fresh_int(s.target.id)
+            for t_ in temps:
+                path.env[t_] = Opaque(f"loop-temporary:{t_}")
             return [path]
         # ---- append-map
         if (isinstance(st, ast.Expr) and isinstance(st.value, ast.Call) and isinstance(st.value.func, ast.Attribute)
@@ -1836,7 +1855,7 @@ class Executor:
             cur = path.env.get(Y)
             if not (isinstance(cur, PyList) and cur.tail is None and not cur.items) or assigned - {Y} - assigned_names([ast.Assign(targets=[s.target], value=ast.Constant(0))]):
                 return None
-            if any(isinstance(n_, ast.Name) and n_.id == Y for n_ in ast.walk(st.value.args[0])):
+            if any(isinstance(n_, ast.Name) and n_.id == Y for e_ in [p_.value for p_ in pre] + [st.value.args[0]] for n_ in ast.walk(e_)):
                 return None
             try:
                 lo, hi, elem_of = self.loop_iter_model(it)
@@ -1848,12 +1867,16 @@ class Executor:
             ex = self
             arg = st.value.args[0]
 
-            def elem(k, base_env=base_env, arg=arg, path=path, elem_of=elem_of, target=s.target):
+            def elem(k, base_env=base_env, arg=arg, pre=pre, path=path, elem_of=elem_of, target=s.target):
                 p2 = path.child()
                 p2.env = dict(base_env)
                 ex.assign(target, elem_of(k), p2)
+                for p_ in pre:
+                    p2.env[p_.targets[0].id] = ex.ev(p_.value, p2)
                 return ex.ev(arg, p2)
             path.env[Y] = SymSeq(hi, elem, "list")
+            for t_ in temps:
+                path.env[t_] = Opaque(f"loop-temporary:{t_}")
             return [path]
         return None
 
